@@ -59,7 +59,7 @@ type object struct {
 	name  string
 	data  []byte
 	d     digest.Digest
-	place int  // bit 0: replica A, bit 1: replica B
+	place int     // bit 0: replica A, bit 1: replica B
 	old   [2]bool // local replicas: park in an old block
 }
 
@@ -270,8 +270,8 @@ type opResult struct {
 	// closeErr: the error was returned by Close() of the io.ReadCloser.
 	closeErr bool
 	panic    any
-	stack   string
-	tracker *model.Tracker
+	stack    string
+	tracker  *model.Tracker
 }
 
 func (wd *world) exec(o operation) (res opResult) {
@@ -356,6 +356,9 @@ func (wd *world) run() [2]int {
 		from := [2]int{wd.reps[0].logLen(), wd.reps[1].logLen()}
 		panicsBefore := wd.reps[0].sizePanics + wd.reps[1].sizePanics
 
+		wd.reps[0].opStart()
+		wd.reps[1].opStart()
+
 		res := wd.exec(o)
 
 		// ---- what the replicas saw ----
@@ -428,6 +431,11 @@ func (wd *world) run() [2]int {
 			panic(fmt.Sprintf("%v\n%s", res.panic, res.stack))
 		}
 
+		if wd.reps[0].storm || wd.reps[1].storm {
+			c.Violation(opn+":unbounded-replica-calls", "%v made more than %d calls to one replica (the fall-back to the other replica must happen exactly once); first calls: %v", o, wd.reps[0].opLimit, cs[:12])
+			return [2]int{wd.reps[0].calls, wd.reps[1].calls}
+		}
+
 		// ---- a replica that acknowledges an upload and serves other bytes ----
 		for _, rep := range wd.reps {
 			if len(rep.corruptPuts) > 0 {
@@ -466,10 +474,12 @@ func (wd *world) run() [2]int {
 			}
 			w.Distinct(fmt.Sprintf("%v|%v|%d/%d|%v|%v|first=%d|%v|nf=%v|%s", sc.kinds, o, sc.repl[0], sc.repl[1], sc.metrics, pres, first, fs, nfFired, outcome))
 		}
-		if first == 0 {
-			w.Count("first_consulted_A", 1)
-		} else if first == 1 {
-			w.Count("first_consulted_B", 1)
+		if o.kind == opGet || o.kind == opGetFromComposite || o.kind == opGetCapabilities {
+			if first == 0 {
+				w.Count("first_consulted_A", 1)
+			} else if first == 1 {
+				w.Count("first_consulted_B", 1)
+			}
 		}
 		w.Count("ops_"+opNames[o.kind], 1)
 
@@ -537,6 +547,11 @@ func (wd *world) run() [2]int {
 					if allAges[o.obj][1-first] == 2 {
 						w.Count("reads_repaired_from_old_block", 1)
 					}
+					if withTask {
+						// The replicator read the object from a replica whose
+						// Get returned a refresh-in-progress buffer.
+						w.Count("reads_repaired_from_task_buffer", 1)
+					}
 				}
 			default:
 				if res.err == nil {
@@ -575,7 +590,7 @@ func (wd *world) run() [2]int {
 				if nfFired && status.Code(res.err) == codes.NotFound {
 					c.Violation(opn+":inconsistent-replica-surfaced-as-NOT_FOUND", "%v failed with NOT_FOUND (%v): a replica that reported the object present and then could not deliver it is a replica failure, and an existence check has no NOT_FOUND outcome", o, res.err)
 				} else if nfFired {
-					w.Count("findmissing_inconsistent_replica_reported", 1)
+					w.Count("findmissing_inconsistent_replica_seen", 1)
 				} else {
 					w.Count("findmissing_failed_without_cause", 1)
 				}
